@@ -20,6 +20,7 @@
 (*   fn map(l: List(a), f: fn(a) -> b) -> List(b)   fn add(a: Int, b: Int) *)
 (*   fn mk_ok(x: a, e: b) -> Result(a, b)    fn mk_err(x: a, e: b) -> ...  *)
 (*   type M { M(Int, key: String, value: Float) }   (unlabelled + labelled) *)
+(*   fn ping / fn pong (a recursion group sharing a type variable)          *)
 (*   fn wrap(item) { item }   fn item() { wrap(1) }   (a parameter spelled  *)
 (*   like a top-level function that calls back: wrap must stay generic)     *)
 (* (PreludeSigs: what hovering these functions must show) and of generated *)
@@ -207,7 +208,11 @@ LName(i) == "l" \o Letter(i)
 PreludeSigs == << [name |-> "id", sig |-> "fn id(a) -> a"], [name |-> "apply", sig |-> "fn apply(a, fn(a) -> b) -> b"],
                   [name |-> "map", sig |-> "fn map(List(a), fn(a) -> b) -> List(b)"], [name |-> "add", sig |-> "fn add(Int, Int) -> Int"],
                   [name |-> "mk_ok", sig |-> "fn mk_ok(a, b) -> Result(a, b)"], [name |-> "mk_err", sig |-> "fn mk_err(a, b) -> Result(a, b)"],
-                  [name |-> "wrap", sig |-> "fn wrap(a) -> a"], [name |-> "item", sig |-> "fn item() -> Int"] >>
+                  [name |-> "wrap", sig |-> "fn wrap(a) -> a"], [name |-> "item", sig |-> "fn item() -> Int"],
+                  \* a recursion group whose members share one type variable while each also has one of its own (the element
+                  \* type of an empty list nothing constrains): `let boxed = #(value, [])` in ping, `let wrapped = #(item, [])` in pong
+                  [name |-> "ping", sig |-> "fn ping(a, Int) -> a"], [name |-> "pong", sig |-> "fn pong(a, Int) -> a"],
+                  [name |-> "let boxed", sig |-> "#(a, List(b))"], [name |-> "let wrapped", sig |-> "#(a, List(b))"] >>
 ASSUME PrintT(<<"PRELUDE", ToJson(PreludeSigs)>>)
 
 \* environment: sequence of frames, each a set of <<name, type>>; a mark frame delimits a block
